@@ -212,6 +212,15 @@ def rule_P_TABLE(ctx, scopes, floor_sites):
         if proved and not (ok_ops and not missing):
             ctx.ob("P-GUARD", key + " (proved by B-LEN)", True, "", site)
             continue
+        if not (ok_ops and not missing):
+            # the ordinal of a site follows the block order, which a restructured loop changes: another reviewed entry of the same function
+            # and kind with exactly these operands and guards is this site under its old number
+            stem = key.rsplit(" #", 1)[0]
+            for k2, e2 in table.items():
+                if k2 != key and k2.rsplit(" #", 1)[0] == stem and e2["ops"] == ops and all(g in live for g in e2["need"]) \
+                        and all(lower_bound(live, bd["expr"]) >= bd["min"] for bd in e2.get("bounds", [])):
+                    ok_ops, missing = True, []
+                    break
         ctx.ob("P-GUARD", key, ok_ops and not missing,
                ("operands changed: %s (reviewed: %s)" % (json.dumps(ops, ensure_ascii=False), json.dumps(ent["ops"], ensure_ascii=False)) if not ok_ops else "")
                + (" reviewed guard no longer forced: %s" % missing if missing else ""), site)
@@ -558,6 +567,13 @@ def rule_R_BORDER(ctx, floor=10):
         if proved and not (ops == ent["ops"] and not missing):
             ctx.ob("R-BORDER", key + " (post proved by B-LEN)", True, "", site)
             continue
+        if not (ops == ent["ops"] and not missing):
+            # ordinals follow the block order: accept the reviewed entry of the same function and kind that has exactly this expression and guards
+            stem = key.rsplit(" #", 1)[0]
+            for k2, e2 in table.items():
+                if k2 != key and k2.rsplit(" #", 1)[0] == stem and e2["ops"] == ops and all(g in live for g in e2["need"]):
+                    ent, missing = e2, []
+                    break
         ctx.ob("R-BORDER", key, ops == ent["ops"] and not missing,
                ("border expression changed: %s (reviewed %s)" % (ops, ent["ops"]) if ops != ent["ops"] else "") + (" reviewed guard no longer forced: %s" % missing if missing else ""), site)
     ctx.floor("returned borders", len(sites), floor)
